@@ -119,6 +119,11 @@ func c16World(t *testing.T, r *simcore.Run) any {
 		case c16After:
 			c.delay = dl + 1 + time.Duration(tp.Range(0, int64(5*time.Second), "delay"))
 		}
+		r.Fault("clock-" + []string{"answers-before-deadline", "answers-just-before-deadline", "answers-at-deadline", "answers-just-after-deadline",
+			"answers-after-deadline", "returns-on-cancel", "ignores-cancel"}[c.timing])
+		if c.fail {
+			r.Fault("clock-fails")
+		}
 		clocks[i] = c
 		refclks[i] = c
 	}
